@@ -218,9 +218,10 @@ Definition c10_entry_ok (template : list Z) (e : list (Z * bytes)) : bool :=
   | f :: _, d :: _ => (fst f =? d) && forallb (fun f => c10_member_ok f && existsb (Z.eqb (fst f)) template) e
   | _, _ => false
   end.
-(* `strict` additionally excludes a scalar set on a tag that currently holds repeating-group members: the code keeps
-   the stale members there (getOrCreate returns the alias f[:1]; the stored slice keeps its length), see
-   c10_wellformed_refuted in Props/C10.v *)
+(* `strict` additionally excludes a scalar set on a tag that currently holds repeating-group members.  It is NOT a
+   hypothesis of any theorem any more (getOrCreate now truncates the stored slice); it only labels that class of
+   programs for the correspondence driver, so that a regression (stale members left on the wire) is reported under
+   its own signature stale-group-members-after-scalar-set. *)
 Definition c10_op_ok (strict : bool) (a : c10_abs) (o : c10_op) : bool :=
   match o with
   | OpSet s t v => c10_tag_in_sec s t && c10_val_ok v &&
@@ -243,7 +244,7 @@ Definition c10_proper_gen (strict : bool) (ops : list c10_op) : bool :=
   c10_has (c10_abs_run ops) SecHeader TAG_BEGIN_STRING && c10_has (c10_abs_run ops) SecHeader TAG_MSG_TYPE.
 (* the hypothesis of C10 as the property states it *)
 Definition c10_proper (ops : list c10_op) : bool := c10_proper_gen false ops.
-(* ... and with the one excluded class (scalar set over a live repeating group) *)
+(* classifier only: programs without a scalar set over a live repeating group *)
 Definition c10_proper_strict (ops : list c10_op) : bool := c10_proper_gen true ops.
 
 (* ================= C11 ================= *)
